@@ -183,6 +183,23 @@ def _centroid_task(task):
                                 path[lv] = node
                             if lv != world.hierarchy[0]:
                                 node = c2p[lv][node]
+                        # "assigned to that leaf and its ancestors": the levels removed by drop_level / flatten
+                        # carry the ancestor of the leaf in the STORED taxonomy
+                        # (ancestors of the leaf that was ASSIGNED: whether that is the centroid's own leaf is
+                        # decided level by level below, under the statement's pre-condition)
+                        node = (res.get(cid, {}).get(world.hierarchy[-1]) or {}).get('assignment')
+                        for lv in reversed(world.hierarchy):
+                            if node is None:
+                                break
+                            if lv not in hr:
+                                a = res.get(cid, {}).get(lv)
+                                if not isinstance(a, dict) or a.get('assignment') != node:
+                                    rec['bad'].append(f"cell {cid} (centroid of {lf}): removed level {lv} reports "
+                                                      f"{a.get('assignment') if isinstance(a, dict) else a!r}, "
+                                                      f"the ancestor of the assigned leaf is {node!r}")
+                                    break
+                            if lv != world.hierarchy[0]:
+                                node = c2p[lv].get(node)
                         parent = None
                         for lv in hr:
                             kids = fx.children_of(tree_red, parent[0] if parent else None, parent[1] if parent else None)
